@@ -1,0 +1,102 @@
+//! Verification hooks. Compiled only with `--cfg temporal_verif`; with the
+//! flag off this module does not exist and nothing else in the crate changes.
+//!
+//! Read-only windows onto internal kernels, plus an event sink written from
+//! inside the file-system time zone provider and a fault-injection helper.
+
+use crate::options::RoundingMode;
+use crate::rounding::{IncrementRounder, Round};
+use core::num::NonZeroU128;
+
+pub use crate::utils::neri_schneider_verif::{epoch_days_from_gregorian_date, ymd_from_epoch_days};
+
+pub fn ymd_from_epoch_milliseconds(ms: i64) -> (i32, u8, u8) {
+    crate::utils::ymd_from_epoch_milliseconds(ms)
+}
+
+pub fn epoch_days_for_year(y: i32) -> i32 {
+    crate::utils::epoch_days_for_year(y)
+}
+
+pub fn epoch_time_to_epoch_year(ms: i64) -> i32 {
+    crate::utils::epoch_time_to_epoch_year(ms)
+}
+
+pub fn iso_days_in_month(year: i32, month: u8) -> u8 {
+    crate::utils::iso_days_in_month(year, month)
+}
+
+pub fn pad_iso_year(year: i32) -> alloc::string::String {
+    crate::utils::pad_iso_year(year)
+}
+
+/// `IncrementRounder::<i128>::from_signed_num(x, inc).round(mode)`
+pub fn round_i128(x: i128, inc: u128, mode: RoundingMode) -> Option<i128> {
+    let inc = NonZeroU128::new(inc)?;
+    Some(IncrementRounder::<i128>::from_signed_num(x, inc).ok()?.round(mode))
+}
+
+/// `IncrementRounder::<f64>::from_signed_num(x, inc).round(mode)`
+pub fn round_f64(x: f64, inc: u128, mode: RoundingMode) -> Option<i128> {
+    let inc = NonZeroU128::new(inc)?;
+    Some(IncrementRounder::<f64>::from_signed_num(x, inc).ok()?.round(mode))
+}
+
+#[cfg(feature = "tzdb")]
+pub mod tz {
+    //! Event sink for `FsTzdbProvider::get` (one event per call, emitted at the
+    //! point where the cache has been consulted / updated).
+    use std::string::String;
+    use std::sync::atomic::{AtomicBool, AtomicU64, Ordering};
+    use std::sync::Mutex;
+    use std::thread::ThreadId;
+    use std::vec::Vec;
+
+    #[derive(Debug, Clone)]
+    pub struct TzEvent {
+        pub seq: u64,
+        pub thread: ThreadId,
+        pub zone: String,
+        pub hit: bool,
+    }
+
+    static ENABLED: AtomicBool = AtomicBool::new(false);
+    static SEQ: AtomicU64 = AtomicU64::new(0);
+    static SINK: Mutex<Vec<TzEvent>> = Mutex::new(Vec::new());
+
+    pub fn enable(on: bool) {
+        ENABLED.store(on, Ordering::SeqCst);
+    }
+
+    pub fn take() -> Vec<TzEvent> {
+        let mut g = SINK.lock().unwrap_or_else(|e| e.into_inner());
+        core::mem::take(&mut *g)
+    }
+
+    pub(crate) fn emit(zone: &str, hit: bool) {
+        if !ENABLED.load(Ordering::SeqCst) {
+            return;
+        }
+        let mut g = SINK.lock().unwrap_or_else(|e| e.into_inner());
+        let seq = SEQ.fetch_add(1, Ordering::SeqCst);
+        g.push(TzEvent {
+            seq,
+            thread: std::thread::current().id(),
+            zone: zone.into(),
+            hit,
+        });
+    }
+}
+
+/// Fault injection: panics while holding the process-wide provider lock.
+#[cfg(feature = "compiled_data")]
+pub fn panic_holding_provider_lock() {
+    let _guard = crate::builtins::TZ_PROVIDER.lock();
+    panic!("temporal_verif: injected panic while holding TZ_PROVIDER");
+}
+
+/// Whether the process-wide provider lock is currently poisoned.
+#[cfg(feature = "compiled_data")]
+pub fn provider_lock_poisoned() -> bool {
+    crate::builtins::TZ_PROVIDER.is_poisoned()
+}
